@@ -111,27 +111,96 @@ Proof.
   cbn beta. intros a (X & _). exact X.
 Qed.
 
+Lemma last_In {A} (l : list A) d : l <> [] -> In (last l d) l.
+Proof.
+  induction l as [|x l IH]; [contradiction|]. intros _.
+  destruct l as [|y l']; [now left|]. right. apply IH. discriminate.
+Qed.
+
 (** * Time and claims *)
 
+Ltac Zify.zify_post_hook ::= Z.div_mod_to_equations.
+
+Lemma ext_of_unix_in_range s : unix_in_range s -> ext_of_unix s = s + unix_to_internal.
+Proof. unfold unix_in_range, ext_of_unix, wrap64, two63, unix_to_internal. intros H. lia. Qed.
+
+Lemma add_sec_sat_small e d :
+  - 4611686018427387904 - unix_to_internal <= e <= 4611686018427387904 + unix_to_internal ->
+  - 1000000 <= d <= 1000000 -> d <> 0 -> add_sec_sat e d = e + d.
+Proof.
+  unfold add_sec_sat, wrap64, two63, unix_to_internal. intros H D N.
+  assert ((e + d + 9223372036854775808) mod (2 * 9223372036854775808) - 9223372036854775808 = e + d) as -> by lia.
+  destruct (Z.ltb_spec e (e + d)); destruct (Z.ltb_spec 0 d); cbn [Bool.eqb]; try reflexivity; lia.
+Qed.
+
+(** Comparing whole seconds [a] (internal) with the verification instant. *)
+Lemma before_now a now :
+  time_before a 0 (now_ext now) (now_nsec now) = true <-> (a - unix_to_internal) * sec_ns < now.
+Proof.
+  unfold time_before, now_ext, now_nsec, sec_ns, unix_to_internal.
+  rewrite orb_true_iff, andb_true_iff, !Z.ltb_lt, Z.eqb_eq. lia.
+Qed.
+
+Lemma now_before a now :
+  time_before (now_ext now) (now_nsec now) a 0 = true <-> now < (a - unix_to_internal) * sec_ns.
+Proof.
+  unfold time_before, now_ext, now_nsec, sec_ns, unix_to_internal.
+  rewrite orb_true_iff, andb_true_iff, !Z.ltb_lt, Z.eqb_eq. lia.
+Qed.
+
+Lemma bool_iff_false (b : bool) (P : Prop) : (b = true <-> P) -> (b = false <-> ~ P).
+Proof.
+  intros H. destruct b; split.
+  - discriminate.
+  - intros N. exfalso. apply N. now apply H.
+  - intros _ Q. apply H in Q. discriminate.
+  - reflexivity.
+Qed.
+
+(** For claim times clear of the int64 wrap, [CheckTime] is the linear condition. *)
 Theorem check_time_iff c now :
+  unix_in_range (c_iat c) -> unix_in_range (c_exp c) ->
   check_time c now = None <-> c_iat c * sec_ns - grace_ns < now <= c_exp c * sec_ns.
 Proof.
-  unfold check_time.
-  destruct (Z.ltb_spec (c_iat c * sec_ns - grace_ns) now); cbn [negb];
-    [|split; [discriminate|lia]].
-  destruct (Z.ltb_spec (c_exp c * sec_ns) now); split; try discriminate; try lia; reflexivity.
+  intros Ri Re. unfold check_time.
+  rewrite (ext_of_unix_in_range _ Ri), (ext_of_unix_in_range _ Re).
+  rewrite add_sec_sat_small;
+    [|unfold unix_in_range, unix_to_internal in *; lia|unfold grace_sec; lia|unfold grace_sec; lia].
+  destruct (time_before (c_iat c + unix_to_internal + - grace_sec) 0 _ _) eqn:A; cbn [negb].
+  - apply before_now in A.
+    destruct (time_before (c_exp c + unix_to_internal) 0 _ _) eqn:B.
+    + apply before_now in B. unfold grace_sec, grace_ns, sec_ns in *. split; [discriminate|lia].
+    + apply (bool_iff_false _ _ (before_now _ _)) in B.
+      unfold grace_sec, grace_ns, sec_ns in *. split; [lia|reflexivity].
+  - apply (bool_iff_false _ _ (before_now _ _)) in A.
+    unfold grace_sec, grace_ns, sec_ns in *. split; [discriminate|lia].
 Qed.
 
-Lemma check_time_future c now : now <= c_iat c * sec_ns - grace_ns -> check_time c now = Some EFuture.
-Proof. intros H. unfold check_time. destruct (Z.ltb_spec (c_iat c * sec_ns - grace_ns) now); [lia|reflexivity]. Qed.
-
-Lemma check_time_expired c now :
-  c_iat c * sec_ns - grace_ns < now -> c_exp c * sec_ns < now -> check_time c now = Some EExpired.
+Lemma check_time_future c now :
+  unix_in_range (c_iat c) -> unix_in_range (c_exp c) ->
+  now <= c_iat c * sec_ns - grace_ns -> check_time c now = Some EFuture.
 Proof.
-  intros A B. unfold check_time.
-  destruct (Z.ltb_spec (c_iat c * sec_ns - grace_ns) now); [|lia]. cbn [negb].
-  destruct (Z.ltb_spec (c_exp c * sec_ns) now); [reflexivity|lia].
+  intros Ri Re H. destruct (check_time c now) as [e|] eqn:E.
+  - unfold check_time in E.
+    destruct (negb _) eqn:A in E; [congruence|]. exfalso.
+    rewrite (ext_of_unix_in_range _ Ri) in A.
+    rewrite add_sec_sat_small in A;
+      [|unfold unix_in_range, unix_to_internal in *; lia|unfold grace_sec; lia|unfold grace_sec; lia].
+    apply negb_false_iff, before_now in A. unfold grace_sec, grace_ns, sec_ns in *. lia.
+  - apply check_time_iff in E; [lia|assumption|assumption].
 Qed.
+
+(** Outside that range the stored seconds wrap; what then happens is fixed by
+    the model too.  An expiry at the top of the range reads as long past; an
+    issue time there reads as long ago (not as the future). *)
+Example check_time_wraps :
+  check_time (mkC [] [] [] (two63 - 1) 0 [] []) 1700000000000000000 = Some EExpired /\
+  check_time (mkC [] [] [] 1800000000 (two63 - 1) [] []) 1700000000000000000 = None /\
+  check_time (mkC [] [] [] (two63 - 1 - unix_to_internal) 0 [] []) 1700000000000000000 = None /\
+  check_time (mkC [] [] [] (two63 - unix_to_internal) 0 [] []) 1700000000000000000 = Some EExpired /\
+  check_time (mkC [] [] [] 1800000000 (- two63) [] []) 1700000000000000000 = None /\
+  check_time (mkC [] [] [] (- two63) (- two63) [] []) 0 = Some EExpired.
+Proof. vm_compute. repeat split. Qed.
 
 Lemma is_empty_spec b : is_empty b = true <-> b = [].
 Proof. destruct b; cbn; split; congruence. Qed.
@@ -292,6 +361,29 @@ Section JwtProofs.
       rewrite CH, Pp, Ps, beq_bytes_refl, CT. reflexivity.
   Qed.
 
+  (** What is guaranteed whatever JSON the segments hold (duplicate keys,
+      folded key names, unknown fields, ... are between [encoding/json] and the
+      parsers): the MAC that was checked is over exactly the presented first two
+      segments, the third segment is its canonical encoding, and the header pin
+      and the time check were applied to what the parsers return for the
+      canonical decoding of those very segments. *)
+  Theorem hs_signed_bytes_and_parsed_semantics k pin now tok t :
+    hs_verify k pin now tok = JOk t ->
+    exists hs cs hb cb,
+      tok = hs ++ dot :: cs ++ dot :: b64_encode (mac k (hs ++ dot :: cs)) /\
+      t_payload t = hs ++ dot :: cs /\ t_sig t = mac k (hs ++ dot :: cs) /\
+      nosep dot hs /\ nosep dot cs /\
+      b64_decode_canon hs = Some hb /\ parse_header hb = Some (t_header t) /\
+      b64_decode_canon cs = Some cb /\ parse_claims cb = Some (t_claims t) /\
+      check_header (t_header t) pin = None /\ check_time (t_claims t) now = None.
+  Proof.
+    intros A. apply hs_verify_iff in A.
+    destruct A as (hb & cb & Hh & Hc & -> & Ph & CH & Pc & CT & Pp & Ps).
+    exists (b64_encode hb), (b64_encode cb), hb, cb.
+    unfold Jwt.jwt_sign, jwt_text in *. rewrite <- app_assoc. cbn [app].
+    repeat split; auto; try (now apply b64_nosep); apply b64_canon_iff; auto.
+  Qed.
+
   (** The signed text determines the token: two accepted tokens with the same
       payload text are the same text (no second spelling of the signature). *)
   Theorem hs_token_unique k pin now now' tok tok' t t' :
@@ -409,13 +501,22 @@ Section JwtProofs.
   Qed.
 
   Lemma key_valid_iff (k : @pubkey M) now :
+    unix_in_range (pk_nvb k) -> unix_in_range (pk_nva k) ->
     key_valid k now = None <->
     (pk_nvb k <= 0 \/ pk_nvb k * sec_ns <= now) /\ now <= pk_nva k * sec_ns.
   Proof.
-    unfold key_valid.
-    destruct (Z.ltb_spec 0 (pk_nvb k)); destruct (Z.ltb_spec now (pk_nvb k * sec_ns)); cbn [andb];
-      try (split; [discriminate|lia]);
-      (destruct (Z.ltb_spec (pk_nva k * sec_ns) now); split; try discriminate; try lia; reflexivity).
+    intros Rb Ra. unfold key_valid.
+    rewrite (ext_of_unix_in_range _ Rb), (ext_of_unix_in_range _ Ra).
+    destruct (Z.ltb_spec 0 (pk_nvb k)) as [P|P]; cbn [andb].
+    - destruct (time_before (now_ext now) _ _ _) eqn:A.
+      + apply now_before in A. unfold sec_ns in *. split; [discriminate|lia].
+      + apply (bool_iff_false _ _ (now_before _ _)) in A.
+        destruct (time_before (pk_nva k + unix_to_internal) 0 _ _) eqn:B.
+        * apply before_now in B. unfold sec_ns in *. split; [discriminate|lia].
+        * apply (bool_iff_false _ _ (before_now _ _)) in B. unfold sec_ns in *. split; [lia|reflexivity].
+    - destruct (time_before (pk_nva k + unix_to_internal) 0 _ _) eqn:B.
+      + apply before_now in B. unfold sec_ns in *. split; [discriminate|lia].
+      + apply (bool_iff_false _ _ (before_now _ _)) in B. unfold sec_ns in *. split; [lia|reflexivity].
   Qed.
 
   (** An RS256 token is accepted only under a key of the card that is the
@@ -430,9 +531,9 @@ Section JwtProofs.
       h_alg (t_header t) = alg_rs256 /\
       card = pre ++ k :: post /\ Forall (fun k' => pk_id k' <> h_kid (t_header t)) pre /\
       pk_id k = h_kid (t_header t) /\ pk_type k = key_type_rsa /\
-      (pk_nvb k <= 0 \/ pk_nvb k * sec_ns <= now) /\ now <= pk_nva k * sec_ns /\
+      key_valid k now = None /\
       parse_key (pk_mat k) = Some rk /\ rsa_verify rk (t_payload t) (t_sig t) = true /\
-      c_iat (t_claims t) * sec_ns - grace_ns < now <= c_exp (t_claims t) * sec_ns.
+      check_time (t_claims t) now = None.
   Proof.
     unfold Jwt.rs_verify, decode_and_verify, rs_verifier.
     destruct (decode tok) as [t'|] eqn:D; [|discriminate].
@@ -444,7 +545,7 @@ Section JwtProofs.
     destruct (rsa_verify rk (t_payload t') (t_sig t')) eqn:R; [|discriminate].
     destruct (check_time (t_claims t') now) eqn:CT; [discriminate|].
     intros [= <-].
-    apply beq_bytes_spec in A, T. apply key_valid_iff in V. apply check_time_iff in CT.
+    apply beq_bytes_spec in A, T.
     apply find_key_first in F. destruct F as (I & pre & post & -> & Fp).
     exists k, rk, pre, post. tauto.
   Qed.
@@ -472,12 +573,13 @@ Section JwtProofs.
 
   Corollary rs256_expired_key_rejected card now tok t k :
     decode tok = JOk t -> find_key card (h_kid (t_header t)) = Some k ->
+    unix_in_range (pk_nvb k) -> unix_in_range (pk_nva k) ->
     pk_nva k * sec_ns < now -> is_err (rs_verify card now tok).
   Proof.
-    intros D F X. unfold Jwt.rs_verify, decode_and_verify, rs_verifier. rewrite D.
+    intros D F Rb Ra X. unfold Jwt.rs_verify, decode_and_verify, rs_verifier. rewrite D.
     destruct (negb (beq_bytes (h_alg (t_header t)) alg_rs256)); [exact I|]. rewrite F.
     destruct (negb (beq_bytes (pk_type k) key_type_rsa)); [exact I|].
-    destruct (key_valid k now) eqn:V; [exact I|]. apply key_valid_iff in V. lia.
+    destruct (key_valid k now) eqn:V; [exact I|]. apply key_valid_iff in V; [lia|assumption|assumption].
   Qed.
 
   (** A self token is accepted only for the issuer ".", the named user and host. *)
@@ -491,5 +593,78 @@ Section JwtProofs.
     destruct (check_claims _ _) eqn:C; [discriminate|]. intros [= <-].
     apply check_claims_iff in C. cbn [c_iss c_aud c_typ c_sub c_scope] in C.
     destruct C as ([X|X] & A & _ & S & _); [discriminate|]. auto.
+  Qed.
+  (** ** Signing side *)
+  Context {PM SK : Type}.
+  Variable parse_priv : PM -> option SK.
+
+  Notation core_pick := (core_pick parse_priv).
+
+  (** [simpleCore.Sign] signs only with a stored private key whose public half
+      is on the card under the same id, is an RSA key and is inside its
+      validity window at the signing instant; with no id asked for it is the
+      last stored key, otherwise the first stored key of that id. *)
+  Theorem core_pick_sound (privs : list (bytes * PM)) (card : list (@pubkey M)) req now id sk :
+    core_pick privs card req now = COk (id, sk) ->
+    exists pm pub,
+      In (id, pm) privs /\ parse_priv pm = Some sk /\
+      (req = [] -> exists p0, (id, pm) = last privs p0) /\ (req <> [] -> id = req) /\
+      find_key card id = Some pub /\ pk_type pub = key_type_rsa /\ key_valid pub now = None.
+  Proof.
+    unfold Jwt.core_pick. destruct privs as [|p0 r]; [discriminate|].
+    set (pick := if is_empty req then Some (last (p0 :: r) p0) else find _ (p0 :: r)).
+    destruct pick as [[id' pm]|] eqn:P; [|discriminate].
+    destruct (find_key card id') as [pub|] eqn:F; [|discriminate].
+    destruct (beq_bytes (pk_type pub) key_type_rsa) eqn:T; cbn [negb]; [|discriminate].
+    destruct (key_valid pub now) as [e|] eqn:V; [destruct e; discriminate|].
+    destruct (parse_priv pm) as [sk'|] eqn:Q; [|discriminate].
+    intros [= <- <-]. apply beq_bytes_spec in T.
+    exists pm, pub. unfold pick in P.
+    destruct req as [|c req']; cbn [is_empty] in P.
+    - injection P as P. split.
+      + rewrite <- P. exact (last_In (p0 :: r) p0 ltac:(discriminate)).
+      + repeat split; auto; [intros _; eexists; symmetry; exact P|intros N; now elim N].
+    - apply find_some in P. destruct P as [I E]. cbn [fst] in E. apply beq_bytes_spec in E.
+      repeat split; auto. discriminate.
+  Qed.
+
+  (** The key chosen for signing at [now] passes every key check of the
+      verifier at the same instant for the same card; what is left is the
+      signature itself. *)
+  Theorem core_pick_then_verifier (privs : list (bytes * PM)) (card : list (@pubkey M)) req now id sk t :
+    core_pick privs card req now = COk (id, sk) ->
+    h_kid (t_header t) = id -> h_alg (t_header t) = alg_rs256 ->
+    exists pub, find_key card id = Some pub /\
+      rs_verifier parse_key rsa_verify card t now =
+      match parse_key (pk_mat pub) with
+      | None => Some EKeyParse
+      | Some rk => if rsa_verify rk (t_payload t) (t_sig t) then None else Some EWrongSig
+      end.
+  Proof.
+    intros P Kid A. apply core_pick_sound in P.
+    destruct P as (pm & pub & _ & _ & _ & _ & F & T & V). exists pub. split; [exact F|].
+    unfold rs_verifier. rewrite A, beq_bytes_refl, Kid, F, T, beq_bytes_refl, V. reflexivity.
+  Qed.
+
+  (** ** [authgate.Exchange] *)
+
+  (** A session is handed out only for an access token that verifies under
+      the card at that instant, whose claims match issuer, audience and (when
+      one is named) the user, and for a positive lifetime; the session is
+      exactly what [Sessions.New] makes for that user and lifetime. *)
+  Theorem exchange_sound {S : Type} (sess : Z -> bytes -> S) card issuer audience now tok user ttl s :
+    exchange parse_header parse_claims b64_decode_canon parse_key rsa_verify sess
+             card issuer audience now tok user ttl = inl s ->
+    exists t,
+      rs_verify card now tok = JOk t /\
+      field_ok issuer (c_iss (t_claims t)) /\ field_ok audience (c_aud (t_claims t)) /\
+      field_ok user (c_sub (t_claims t)) /\ 0 < ttl /\ s = sess ttl user.
+  Proof.
+    unfold exchange. destruct (is_empty tok); [discriminate|].
+    destruct (rs_verify card now tok) as [t|] eqn:V; [|discriminate].
+    destruct (check_claims _ _) eqn:C; [discriminate|].
+    destruct (Z.leb_spec ttl 0); [discriminate|]. intros [= <-].
+    apply check_claims_iff in C. cbn [c_iss c_aud c_typ c_sub c_scope] in C.
+    exists t. tauto.
   Qed.
 End JwtProofs.
